@@ -14,6 +14,20 @@ from . import cbi, render
 INSIDE = {"src": "src", "inc": "inc", "sys": "sys/include", "bld": "build"}
 
 
+def x_args(e, rnd=None):
+    """command-line spelling of the entry's definition of X"""
+    if e["x"] == "U":
+        return []
+    if e["x"] == "1":
+        return rnd.choice([["-DX"], ["-D", "X"], ["-DX=1"]]) if rnd else ["-DX"]
+    return rnd.choice([["-DX=" + e["x"]], ["-D", "X=" + e["x"]]]) if rnd else ["-DX=" + e["x"]]
+
+
+def x_defs(e):
+    """the same as `defines` strings of a finder.find entry"""
+    return [] if e["x"] == "U" else (["X"] if e["x"] == "1" else ["X=" + e["x"]])
+
+
 class Mat:
     """A materialised scenario."""
 
@@ -57,8 +71,7 @@ class Mat:
         a = [e.get("cc", "gcc")]
         if e.get("xflag"):
             a.append(e["xflag"])
-        if e["x"] != "U":
-            a += rnd.choice([["-DX"], ["-D", "X"], ["-DX=1"]])
+        a += x_args(e, rnd)
         if e.get("hdr", "U") != "U":
             a += ["-DHDR=" + render.val_text(e["hdr"])]
         for r in e["idirs"]:
